@@ -22,6 +22,9 @@ LEVEL_TEXT += " " + "(UNLINKFIRST) a node is unlinked before its value's destruc
 # sixth-round additions
 TECHNIQUE += "; " + "structural agreement of ares_realloc_zero's old-size argument with the capacity member"
 LEVEL_TEXT += " " + '(REALLOCOLD) growth with ares_realloc_zero states the capacity member times the unit as the old size.'
+# seventh/eighth-round addition
+TECHNIQUE += "; " + 'must-facts on the reference argument of every INSERT_BEFORE call (R-C19-BEFOREREF)'
+LEVEL_TEXT += " " + '(BEFOREREF, eighth round) an insertion before a node is always given a non-NULL node (insert-after-the-tail cannot become insert-at-the-head).'
 LEVEL_NOTE = "trusts clang CFG + extractor; conformance to the ADT model needs model-based execution and is outside this family"
 DESIGN_REF = "DESIGN.md §6/C19"
 EXPLANATION = LEVEL_TEXT
